@@ -18,6 +18,19 @@ def opText (j : Json) : Except String Json := do
   | .ok s => pure (ofWSt s)
   | .error e => pure (Json.mkObj [("err", errName e)])
 
+/-- one `TextWidget` object rendered at several widths in turn (the object state is threaded through) -/
+def opTextSeq (j : Json) : Except String Json := do
+  let cc ← charClass (← field j "cc")
+  let t ← str (← field j "text")
+  let ws ← (← arr (← field j "widths")).mapM int
+  let mut st : WSt := {}
+  let mut out : Array Json := #[]
+  for w in ws do
+    match renderTextSt cc st t w with
+    | .ok s => st := s; out := out.push (ofWSt s)
+    | .error e => out := out.push (Json.mkObj [("err", errName e)])
+  pure (Json.arr out)
+
 def opWrap (j : Json) : Except String Json := do
   let cc ← charClass (← field j "cc")
   let t ← str (← field j "text")
@@ -121,6 +134,7 @@ def opPaging (j : Json) : Except String Json := do
 def pureOp (op : String) (j : Json) : Option (Except String Json) :=
   match op with
   | "text" => some (opText j)
+  | "textseq" => some (opTextSeq j)
   | "wrap" => some (opWrap j)
   | "int" => some (opInt j)
   | "draw" => some (opDraw j)
